@@ -127,7 +127,8 @@ class G:
 
 
 class ModelGen:
-    def __init__(self, rng, scheme="clean", special=False, refusal=None, size=6, depth=2, allow_loops=True):
+    def __init__(self, rng, scheme="clean", special=False, refusal=None, size=6, depth=2, allow_loops=True, force_loop=None):
+        self.force_loop = force_loop
         self.rng = rng
         self.namer = Namer(rng, scheme)
         self.special = special
@@ -375,9 +376,12 @@ class ModelGen:
         for x in outs:
             g.add("F", x)
 
-    def loop_stmt(self, g: G, depth: int, o: str):
+    def loop_stmt(self, g: G, depth: int, o: str, force: str | None = None):
         r = self.rng
-        form = r.choice(["for", "for", "while", "while", "forbreak", "forcond", "forcond"])
+        form = r.choice(["for", "for", "while", "while", "forbreak", "forbreak", "forcond", "forcond"])
+        if force:
+            # directed: trip count, NO initial condition, cond_out = Identity(<computed boolean>) (or computed directly)
+            form = "forbreak"
         if self.refusal == "nostop":
             form = "nostop"
             self.refusal = "nostop_done"
@@ -415,13 +419,36 @@ class ModelGen:
         cond_passthrough = form == "forcond" and r.random() < 0.6
         if cond_passthrough:
             self.flags.add("loop_cond_passthrough")
-        if form in ("for", "nostop") or cond_passthrough:
+        if form in ("for", "nostop"):
             self.node(sg, "Identity", [cin], [cout])
+        elif cond_passthrough:
+            # the condition is threaded through unchanged, in one of several shapes
+            shape = r.choice(["identity", "identity", "identity2", "and", "notnot"])
+            self.flags.add("loop_passthrough_" + shape)
+            if shape == "identity":
+                self.node(sg, "Identity", [cin], [cout])
+            elif shape == "identity2":
+                t = self.namer.new()
+                self.node(sg, "Identity", [cin], [t])
+                self.node(sg, "Identity", [t], [cout])
+            elif shape == "and":
+                self.node(sg, "And", [cin, cin], [cout])
+            else:
+                t = self.namer.new()
+                self.node(sg, "Not", [cin], [t])
+                self.node(sg, "Not", [t], [cout])
         else:
             tot = self.namer.new()
             self.node(sg, "ReduceSum", [s0], [tot], keepdims=0)
-            thr = self.const(sg, H.make_tensor("value", TP.FLOAT, [], [r.choice([5.0, 12.0, 30.0])]))
-            self.node(sg, "Less", [tot, thr], [cout])
+            thr = self.const(sg, H.make_tensor("value", TP.FLOAT, [], [r.choice([5.0, 5.0, 12.0, 30.0])]))
+            if r.random() < 0.5 or force == "identity":
+                # cond_out = Identity(<computed boolean>): the forwarding node is not "cond_out = Identity(cond_in)"
+                below = self.namer.new()
+                self.node(sg, "Less", [tot, thr], [below])
+                self.node(sg, "Identity", [below], [cout])
+                self.flags.add("loop_cond_identity_of_computed")
+            else:
+                self.node(sg, "Less", [tot, thr], [cout])
         body = H.make_graph(
             sg.nodes,
             f"loop_g{self.nodecount}",
@@ -440,7 +467,7 @@ class ModelGen:
         if form == "forcond":
             # trip count AND an initial condition that is a run-time value (graph input when there is one)
             cond = self.pick(g, "C") if g.pool("C") and r.random() < 0.7 else self.bool_scalar(g)
-        elif form == "while" or (form == "forbreak" and r.random() < 0.5):
+        elif form == "while" or (form == "forbreak" and not force and r.random() < 0.3):
             cond = self.pick(g, "C") if g.pool("C") and r.random() < 0.3 else self.bool_scalar(g)
         else:
             cond = ""
@@ -477,6 +504,9 @@ class ModelGen:
         self.body(g, 0, r.randrange(1, self.size + 1))
         if self.refusal == "nostop":
             self.loop_stmt(g, 0, self.namer.new())
+        if self.force_loop:
+            self.loop_stmt(g, 0, self.namer.new(), force=self.force_loop)
+            self.flags.add("forced_loop_" + self.force_loop)
         outs = []
         nout = r.choice([1, 1, 2])
         if r.random() < 0.9:
